@@ -538,7 +538,8 @@ class RunModel(Analysis):
             self.ev(ip, 'COUNTCMP', node, st, fr, term=term, val=val)
             if val:
                 st = st.set(count_ok=term)
-        if (term[0] == 'mcall' and term[2] == 'is_critical') or T.is_attr(term, 'critical'):
+        if ((term[0] == 'mcall' and term[2] == 'is_critical') or T.is_attr(term, 'critical')) \
+                and not ip.in_summary and term[1] == T.mk(('var', self.roles.wrap_jobvar)):
             # criticality of a job is configuration: what a branch learnt stays true
             st = st.set(crit=(term, val))
         g = self.roles.guard_attr
